@@ -1,0 +1,21 @@
+// +build verif
+
+package common
+
+import (
+	"io"
+	"time"
+)
+
+// VerifAPIHook, when set, intercepts every node-to-node HTTP request issued
+// through APIRequest (simulation harnesses answer it in memory instead of
+// opening a socket). It returns handled=false to let the real request proceed.
+// Only compiled with the verif build tag.
+var VerifAPIHook func(method string, endpoint string, body io.Reader, timeout time.Duration, ret interface{}) (handled bool, code int, err error)
+
+func verifAPIIntercept(method string, endpoint string, body io.Reader, timeout time.Duration, ret interface{}) (handled bool, code int, err error) {
+	if h := VerifAPIHook; h != nil {
+		return h(method, endpoint, body, timeout, ret)
+	}
+	return false, 0, nil
+}
